@@ -919,7 +919,50 @@ func runC10(env *lib.Env, rep *lib.Report) {
 	}
 	// (9) identifier shapes: underscores first / last / only, digits inside and last, a long one - as table, column
 	// and database name
-	for _, name := range []string{"_id", "_", "__x9", "a_", "a1_b2", "x9", "r2d2_", "_" + strings.Repeat("n", 70)} {
+	// ... and names with capital letters (a name is kept as it was written)
+	for _, name := range []string{"_id", "_", "__x9", "a_", "a1_b2", "x9", "r2d2_", "_" + strings.Repeat("n", 70), "SalesDB", "X", "aB_c", "ID", "Zz9"} {
+		// UPDATE name SET name = 1, INSERT INTO name (name, name) VALUES .., SELECT name.name AS name FROM name name
+		{
+			g := &gen{}
+			g.kw("UPDATE")
+			g.id(name)
+			g.kw("SET")
+			g.id(name)
+			g.op("=")
+			g.value(int64(1))
+			g.p(",")
+			g.id(name + "2")
+			g.op("=")
+			g.value(cr("", name))
+			r.check(c10Case{tree: sql.UpdateStatementSearched{TableName: name, Set: []sql.SetClause{{ObjectColumn: name, UpdateSource: int64(1)}, {ObjectColumn: name + "2", UpdateSource: cr("", name)}}}, toks: g.toks, fam: "identifier-shapes"})
+			g = &gen{}
+			g.kw("INSERT")
+			g.kw("INTO")
+			g.id(name)
+			g.p("(")
+			g.id(name)
+			g.p(",")
+			g.id(name + "2")
+			g.p(")")
+			g.kw("VALUES")
+			g.p("(")
+			g.lit(int64(1))
+			g.p(",")
+			g.lit(name)
+			g.p(")")
+			ins := sql.InsertStatement{TableName: name}
+			ins.ColumnNames = []string{name, name + "2"}
+			ins.QueryExpression = sql.TableValueConstructor{TableValueConstructorList: []sql.RowValueConstructor{{RowValueConstructorList: []any{int64(1), name}}}}
+			r.check(c10Case{tree: ins, toks: g.toks, fam: "identifier-shapes"})
+			g = &gen{}
+			g.kw("SELECT")
+			g.colref(cr(name+"q", name))
+			g.kwOpt("AS", 'A')
+			g.id(name + "a")
+			sel := sql.Select{SelectList: sql.SelectList{sql.DerivedColumn{ValueExpressionPrimary: cr(name+"q", name), AsClause: name + "a"}}}
+			sel.FromClause = from(g, name, name+"q")
+			r.check(c10Case{tree: sel, toks: g.toks, fam: "identifier-shapes"})
+		}
 		g := &gen{}
 		g.kw("DELETE")
 		g.kw("FROM")
